@@ -21,6 +21,7 @@ import (
 	"sort"
 	"strings"
 	"sync"
+	"syscall"
 	"time"
 )
 
@@ -1311,13 +1312,17 @@ func RunNoRead(s *Srv, seed int64) *WHist {
 	h := &WHist{Join: "o", Kinds: map[string]int{}, NCalls: 7}
 	fail := func(why string) *WHist { h.Note = "setup-failed: " + why; return h }
 	phoneA, phoneB := fmt.Sprintf("178%08d", seed%100000000), fmt.Sprintf("179%08d", seed%100000000)
-	c, err := net.DialTimeout("tcp", s.Addr, 3*time.Second)
+	// a small receive buffer from the very first segment (set before connect, so that the advertised window never
+	// shrinks): the server's replies fill it and then the server's own send buffer
+	dl := net.Dialer{Timeout: 3 * time.Second, Control: func(_, _ string, rc syscall.RawConn) error {
+		return rc.Control(func(fd uintptr) { syscall.SetsockoptInt(int(fd), syscall.SOL_SOCKET, syscall.SO_RCVBUF, 4096) })
+	}}
+	c, err := dl.Dial("tcp", s.Addr)
 	if err != nil {
 		return fail("dial: " + err.Error())
 	}
 	defer c.Close()
 	tc := c.(*net.TCPConn)
-	tc.SetReadBuffer(4096)
 	tc.Write(TFrame(0x0002, phoneA, 0, nil))
 	buf := make([]byte, 64)
 	tc.SetReadDeadline(time.Now().Add(3 * time.Second))
@@ -1333,7 +1338,7 @@ func RunNoRead(s *Srv, seed int64) *WHist {
 			chunk = append(chunk, one...)
 		}
 		for {
-			tc.SetWriteDeadline(time.Now().Add(2 * time.Second))
+			tc.SetWriteDeadline(time.Now().Add(12 * time.Second))
 			n, err := tc.Write(chunk)
 			fmu.Lock()
 			flooded += int64(n)
@@ -1346,20 +1351,21 @@ func RunNoRead(s *Srv, seed int64) *WHist {
 	// the flood has stalled (the server stopped reading: its reader waits behind the blocked writer) when the
 	// byte count stops growing
 	var last int64 = -1
-	stalled := false
-	for i := 0; i < 40; i++ {
+	still := 0
+	for i := 0; i < 60 && still < 4; i++ { // no progress for 400 ms after at least 2 MB went in
 		time.Sleep(100 * time.Millisecond)
 		fmu.Lock()
 		cur := flooded
 		fmu.Unlock()
-		if cur == last && cur > 0 {
-			stalled = true
-			break
+		if cur == last && cur > 2<<20 {
+			still++
+		} else {
+			still = 0
 		}
 		last = cur
 	}
-	if !stalled {
-		return fail("the server kept reading the flood for 4 s: its writer never blocked")
+	if still < 4 {
+		return fail(fmt.Sprintf("the server kept reading the flood for 6 s (%d bytes): its writer never blocked", last))
 	}
 	tb, err := DialTerm(s.Addr, phoneB)
 	if err != nil {
@@ -1370,25 +1376,34 @@ func RunNoRead(s *Srv, seed int64) *WHist {
 	if _, ok, _ := tb.Next(2 * time.Second); !ok {
 		return fail("terminal B: no reply to its first heartbeat")
 	}
-	var chs []<-chan CallRes
-	for i := 0; i < 6; i++ {
-		chs = append(chs, s.Call(phoneA, 0x8103, []byte{byte(i)}, 200*time.Millisecond))
-	}
-	time.Sleep(100 * time.Millisecond)
-	chB := s.Call(phoneB, 0x8103, []byte{9}, 200*time.Millisecond)
+	// probe: while the writer still gets its frames into the socket buffer the calls time out normally after 200 ms;
+	// keep flooding and probe again until the writer is blocked for good (then nothing comes back)
 	var obs []string
 	bad := false
-	for i, ch := range chs {
-		r := Await(ch, 2200*time.Millisecond-time.Duration(i)*time.Millisecond)
-		h.Kinds[r.Kind]++
-		obs = append(obs, fmt.Sprintf("A%d:%s", i, r.Kind))
-		bad = bad || r.Kind == "hang"
+	for round := 0; round < 10 && !bad; round++ {
+		var chs []<-chan CallRes
+		for i := 0; i < 6; i++ {
+			chs = append(chs, s.Call(phoneA, 0x8103, []byte{byte(round), byte(i)}, 200*time.Millisecond))
+		}
+		time.Sleep(100 * time.Millisecond)
+		chB := s.Call(phoneB, 0x8103, []byte{9, byte(round)}, 200*time.Millisecond)
+		obs = nil
+		end := time.Now().Add(2200 * time.Millisecond) // timeout 200 ms + 2 s slack, for all of them
+		for i, ch := range chs {
+			r := Await(ch, time.Until(end))
+			h.Kinds[r.Kind]++
+			obs = append(obs, fmt.Sprintf("A%d:%s", i, r.Kind))
+			bad = bad || r.Kind == "hang"
+		}
+		rb := Await(chB, time.Until(end)+100*time.Millisecond)
+		h.Kinds[rb.Kind]++
+		obs = append(obs, "B:"+rb.Kind)
+		bad = bad || rb.Kind == "hang"
+		if !bad {
+			time.Sleep(300 * time.Millisecond)
+		}
 	}
-	rb := Await(chB, 2200*time.Millisecond)
-	h.Kinds[rb.Kind]++
-	obs = append(obs, "B:"+rb.Kind)
-	bad = bad || rb.Kind == "hang"
-	h.Note = "not-reproduced"
+	h.Note = "setup-failed: in 10 probes over 6 s the writer was never blocked (every call timed out normally)"
 	if bad {
 		h.Note = "reproduced"
 		h.Viol = append(h.Viol, WViol{Sig: "blocked-write",
